@@ -61,6 +61,9 @@ def render_seg(seg, sep, style="bs"):
         return "[&%s]" % esc_bs(seg[1], sep), False
     if kind == "all":
         return "*", True
+    if kind == "glob":
+        # a key written with wildcards: the literal parts between the stars
+        return "*".join(esc_bs(part, sep) for part in seg[1]), True
     if kind == "trav":
         return "**", True
     if kind == "search":
@@ -186,6 +189,26 @@ def vocab(level):
                         v.append(("search", attr, op, term, inv))
         return v
     raise ValueError(level)
+
+
+GLOBS = [("glob", ("a", "")), ("glob", ("", "a")), ("glob", ("1", "0")),
+         ("glob", ("1", "")), ("glob", ("", "0")),
+         # literal parts holding characters a regular expression reads
+         ("glob", ("1.", "0")), ("glob", ("1.", "0", "")), ("glob", ("a+", "a")),
+         ("glob", ("", "0", "0"))]
+
+
+def glob_as_search(seg):
+    """The search a wildcard key abbreviates (README: prefix*, *suffix,
+    pre*suf and multiple wildcards; every other character is literal)."""
+    import re
+    parts = seg[1]
+    if len(parts) == 2 and parts[1] == "":
+        return ("search", ".", "^", parts[0], False)
+    if len(parts) == 2 and parts[0] == "":
+        return ("search", ".", "$", parts[1], False)
+    return ("search", ".", "=~",
+            "^" + ".*".join(re.escape(p) for p in parts) + "$", False)
 
 
 def upto(symbols, k):
